@@ -244,7 +244,7 @@ func genC05(r *rt.Rand, tier string, idx int) *world.Scenario {
 func genC05Overflow(r *rt.Rand) *world.Scenario {
 	sc := &world.Scenario{Prefix: prefix, InitRev: pickInitRev(r), Seed: r.Uint64(), Engine: "memkv", Class: "subscriber-buffer-overflow"}
 	sc.WatchCache = []int{64, 0}[r.Intn(2)]
-	sc.Inactive = []string{"seq.commit", "seq.cache", "watch.subscribed", "watch.cacheread", "kv.get", "kv.get.ret", "kv.iter", "kv.commit", "kv.commit.ret", "kv.tso", "kv.parts"}
+	sc.Inactive = []string{"seq.commit", "seq.cache", "watch.subscribed", "watch.cacheread", "kv.get", "kv.get.ret", "kv.commit", "kv.commit.ret", "kv.parts"}
 	sc.MaxSteps = 400000
 	slow := "never"
 	if r.Chance(0.8) {
